@@ -42,6 +42,10 @@ func (m *evalModel) evalFuncs() []*ssa.Function {
 		out = append(out, h)
 		out = append(out, allAnon(h)...)
 	}
+	for _, h := range m.helpers {
+		out = append(out, h)
+		out = append(out, allAnon(h)...)
+	}
 	return out
 }
 
@@ -312,7 +316,21 @@ func (m *evalModel) scopeKindOf(v ssa.Value) (scopeKind, *ssa.Call) {
 			call = c
 		}
 	case *ssa.Parameter:
-		// scope parameters of the helpers (eval_ast, do, macroexpand) and of the finally closure are "current" for their body
+		// a scope parameter of an evaluation helper stands for the arguments at its call sites
+		if args := m.argsFor(x); len(args) > 0 {
+			kind, first := scUnknown, true
+			var c0 *ssa.Call
+			for _, a := range args {
+				k, c := m.scopeKindOf(a)
+				if first {
+					kind, c0, first = k, c, false
+				} else if k != kind {
+					return scUnknown, nil
+				}
+			}
+			return kind, c0
+		}
+		// scope parameters of the named evaluator functions (eval_ast, do, macroexpand) and of the finally closure are "current" for their body
 		if strings.HasSuffix(x.Type().String(), "types.EnvType") {
 			return scCurrent, nil
 		}
@@ -326,9 +344,21 @@ func (m *evalModel) scopeKindOf(v ssa.Value) (scopeKind, *ssa.Call) {
 	}
 	callee := call.Call.StaticCallee()
 	if callee != m.newSub && callee != m.newSubBinds {
+		// an evaluation helper that returns a child scope it created from one of its parameters
+		if callee != nil {
+			if idx, ok := m.returnsChildOfParam(callee); ok && idx < len(call.Call.Args) {
+				return m.childKind(call.Call.Args[idx], call)
+			}
+		}
 		return scUnknown, nil
 	}
 	parent := call.Call.Args[0]
+	// inside a helper, the parent may be the helper's scope parameter
+	if p, ok := parent.(*ssa.Parameter); ok && m.helperOf(p.Parent()) != nil {
+		if k, _ := m.scopeKindOf(p); k == scCurrent {
+			return scFreshChild, call
+		}
+	}
 	if m.isCurrentScope(parent) {
 		return scFreshChild, call
 	}
@@ -350,19 +380,26 @@ func ruleScope(m *evalModel, r *Report, rule string) {
 	// 1. every evaluating call in EVAL receives the scope the definition prescribes for its region
 	want := map[string]scopeKind{"def": scCurrent, "defmacro": scCurrent, "if": scCurrent, "do": scCurrent, "macroexpand": scCurrent, "<application>": scCurrent, "-": scCurrent, "": scCurrent}
 	for _, ec := range m.evalCalls() {
-		if ec.fn != m.EVAL {
+		if ec.fn != m.EVAL && m.helperOf(ec.fn) == nil {
 			continue
 		}
 		region := m.regionOf(ec.call.Block())
+		if ec.fn != m.EVAL && region == "" {
+			continue // a helper shared by several regions: its call sites are checked, its parameter is whatever they pass
+		}
 		k, _ := m.scopeKindOf(ec.env)
 		construct := "scope of " + ec.callee.Name() + "(" + describeVal(m.e, ec.ast, 0) + ") in " + nz(region, "-")
 		n++
 		switch region {
 		case "let":
-			r.check(k == scFreshChild, rule, m.EVAL, construct, ec.call.Pos(), k.String()+": binding values and body see the earlier bindings", "let evaluates in "+k.String()+" instead of its own child scope")
+			r.check(k == scFreshChild, rule, ec.fn, construct, ec.call.Pos(), k.String()+": binding values and body see the earlier bindings", "let evaluates in "+k.String()+" instead of its own child scope")
 		case "try":
-			// the handler body: fresh child; (the try body and finally run in closures with the current scope)
-			r.check(k == scFreshChild, rule, m.EVAL, construct, ec.call.Pos(), "handler evaluated in a "+k.String(), "catch handler evaluated in "+k.String())
+			// the handler body: fresh child; the try body and finally (evaluate-all mode of the body helper) run in the current scope
+			if ec.callee == m.doFn && ec.fn != m.EVAL && doMode(ec.call) == "all" {
+				r.check(k == scCurrent, rule, ec.fn, construct, ec.call.Pos(), "try body evaluated in the "+k.String(), "try body evaluated in "+k.String())
+				break
+			}
+			r.check(k == scFreshChild, rule, ec.fn, construct, ec.call.Pos(), "handler evaluated in a "+k.String(), "catch handler evaluated in "+k.String())
 		default:
 			w, ok := want[region]
 			if !ok {
@@ -375,23 +412,18 @@ func ruleScope(m *evalModel, r *Report, rule string) {
 		}
 	}
 	// 2. stores to the scope cell: let -> its child; catch -> handler child; application -> closure child
-	if m.envCell != nil {
-		for _, st := range m.e.storesTo(m.envCell) {
-			if st.Block().Parent() != m.EVAL || st.Val == ssa.Value(m.envParam) {
-				continue
-			}
-			n++
-			region := m.regionOf(st.Block())
-			k, _ := m.scopeKindOf(st.Val)
-			construct := "scope for the next iteration set in " + nz(region, "-")
-			switch region {
-			case "let", "try":
-				r.check(k == scFreshChild, rule, m.EVAL, construct, st.Pos(), k.String(), "the loop continues in "+k.String())
-			case "<application>":
-				r.check(k == scClosureChild, rule, m.EVAL, construct, st.Pos(), "lexical scoping: "+k.String(), "closure body evaluated in "+k.String()+" instead of a child of its defining scope (dynamic scoping)")
-			default:
-				r.bad(rule, m.EVAL, construct, st.Pos(), "the scope is replaced in a region that must not change it")
-			}
+	for _, st := range m.scopeSwitches() {
+		n++
+		region := m.regionOf(st.block)
+		k, _ := m.scopeKindOf(st.val)
+		construct := "scope for the next iteration set in " + nz(region, "-")
+		switch region {
+		case "let", "try":
+			r.check(k == scFreshChild, rule, m.EVAL, construct, st.pos, k.String(), "the loop continues in "+k.String())
+		case "<application>":
+			r.check(k == scClosureChild, rule, m.EVAL, construct, st.pos, "lexical scoping: "+k.String(), "closure body evaluated in "+k.String()+" instead of a child of its defining scope (dynamic scoping)")
+		default:
+			r.bad(rule, m.EVAL, construct, st.pos, "the scope is replaced in a region that must not change it")
 		}
 	}
 	// 3. Apply (application outside the loop) builds the callee scope from f.Env
@@ -451,16 +483,35 @@ func ruleScope(m *evalModel, r *Report, rule string) {
 		}
 	}
 	// 5. exactly one child scope per let
-	if reg, ok := m.regions["let"]; ok {
+	if _, ok := m.regions["let"]; ok {
 		cnt := 0
-		for b := range reg {
-			for _, in := range b.Instrs {
-				if c, ok := in.(*ssa.Call); ok && (c.Call.StaticCallee() == m.newSub || c.Call.StaticCallee() == m.newSubBinds) {
-					cnt++
-					n++
-					k, _ := m.scopeKindOf(c)
-					uncond := edgeDominatesRegionEntry(m, "let", b)
-					r.check(k == scFreshChild && uncond, rule, m.EVAL, "child scope of let", c.Pos(), "created unconditionally from the current scope", "let's scope is not an unconditional fresh child of the current scope")
+		fns := []*ssa.Function{m.EVAL}
+		for _, h := range m.helpers {
+			fns = append(fns, h)
+			fns = append(fns, allAnon(h)...)
+		}
+		for _, fn := range fns {
+			for _, b := range fn.Blocks {
+				if m.regionOf(b) != "let" {
+					continue
+				}
+				for _, in := range b.Instrs {
+					if c, ok := in.(*ssa.Call); ok && (c.Call.StaticCallee() == m.newSub || c.Call.StaticCallee() == m.newSubBinds) {
+						cnt++
+						n++
+						k, _ := m.scopeKindOf(c)
+						uncond := edgeDominatesRegionEntry(m, "let", b)
+						if fn != m.EVAL {
+							// in a helper: at the helper's entry, and the helper is called at the region's entry
+							uncond = b == fn.Blocks[0] && fn.Parent() == nil
+							for _, lb := range m.liftBlock(b, 0) {
+								if !edgeDominatesRegionEntry(m, "let", lb) {
+									uncond = false
+								}
+							}
+						}
+						r.check(k == scFreshChild && uncond, rule, fn, "child scope of let", c.Pos(), "created unconditionally from the current scope", "let's scope is not an unconditional fresh child of the current scope")
+					}
 				}
 			}
 		}
@@ -575,7 +626,31 @@ func ruleLookupOrder(w *World, r *Report, e *Engine) {
 // ruleOrder: evaluation loops of eval_ast
 func ruleOrder(m *evalModel, r *Report) {
 	n := 0
+	// eval_ast and the helpers only it calls (a shared element loop extracted into a function)
+	type loopIn struct {
+		fn    *ssa.Function
+		l     natLoop
+		sites int
+	}
+	var loops []loopIn
 	for _, l := range naturalLoops(m.evalAst) {
+		loops = append(loops, loopIn{m.evalAst, l, 1})
+	}
+	for _, h := range m.helpers {
+		only := len(m.helperSites[h]) > 0
+		for _, s := range m.helperSites[h] {
+			if s.Parent() != m.evalAst {
+				only = false
+			}
+		}
+		if only {
+			for _, l := range naturalLoops(h) {
+				loops = append(loops, loopIn{h, l, len(m.helperSites[h])})
+			}
+		}
+	}
+	for _, li := range loops {
+		l, inFn := li.l, li.fn
 		blocks := loopBlocks(l)
 		var calls []*ssa.Call
 		for b := range blocks {
@@ -588,7 +663,7 @@ func ruleOrder(m *evalModel, r *Report) {
 		if len(calls) == 0 {
 			continue
 		}
-		n++
+		n += li.sites
 		pos := calls[0].Pos()
 		isMapRange := false
 		for b := range blocks {
@@ -598,7 +673,7 @@ func ruleOrder(m *evalModel, r *Report) {
 				}
 			}
 		}
-		if !r.check(len(calls) == 1, "C01.order", m.evalAst, "evaluating calls per element", pos, "exactly one", fmt.Sprintf("%d evaluating calls in one iteration", len(calls))) {
+		if !r.check(len(calls) == 1, "C01.order", inFn, "evaluating calls per element", pos, "exactly one", fmt.Sprintf("%d evaluating calls in one iteration", len(calls))) {
 			continue
 		}
 		c := calls[0]
@@ -613,7 +688,7 @@ func ruleOrder(m *evalModel, r *Report) {
 					}
 				}
 			}
-			r.check(stored, "C01.order", m.evalAst, "map literal: evaluated value stored", pos, "stored under the iteration's key", "the evaluated value is not what is stored in the result map")
+			r.check(stored, "C01.order", inFn, "map literal: evaluated value stored", pos, "stored under the iteration's key", "the evaluated value is not what is stored in the result map")
 			continue
 		}
 		// ascending index loop over the form's elements
@@ -630,7 +705,7 @@ func ruleOrder(m *evalModel, r *Report) {
 				}
 			}
 		}
-		r.check(class == "counted" && asc, "C01.order", m.evalAst, "element loop direction", pos, "ascending counted/range loop", "elements are not visited left to right by a counted loop")
+		r.check(class == "counted" && asc, "C01.order", inFn, "element loop direction", pos, "ascending counted/range loop", "elements are not visited left to right by a counted loop")
 		// the element evaluated is the loop's current element; the result is appended to the accumulator
 		elemOK := false
 		if ld, ok := c.Call.Args[1].(*ssa.UnOp); ok {
@@ -641,7 +716,7 @@ func ruleOrder(m *evalModel, r *Report) {
 				}
 			}
 		}
-		r.check(elemOK, "C01.order", m.evalAst, "element evaluated", pos, "the element at the loop index", "the form evaluated is not the element at the loop index")
+		r.check(elemOK, "C01.order", inFn, "element evaluated", pos, "the element at the loop index", "the form evaluated is not the element at the loop index")
 		appended := false
 		for b := range blocks {
 			for _, in := range b.Instrs {
@@ -667,9 +742,9 @@ func ruleOrder(m *evalModel, r *Report) {
 				}
 			}
 		}
-		r.check(appended, "C01.order", m.evalAst, "result appended in order", pos, "appended to the loop-carried accumulator (one result per element, same order)", "the evaluated value is not appended to the result sequence: order or length of the result can differ from the form")
+		r.check(appended, "C01.order", inFn, "result appended in order", pos, "appended to the loop-carried accumulator (one result per element, same order)", "the evaluated value is not appended to the result sequence: order or length of the result can differ from the form")
 	}
-	r.floor("C01.order", "evaluation loops in eval_ast", n, 3)
+	r.floor("C01.order", "evaluation loops of eval_ast (one per kind of sequence form)", n, 3)
 	// application region: exactly one eval_ast on the call form itself, no other evaluating call
 	cnt := 0
 	var theCall *ssa.Call
@@ -784,69 +859,74 @@ func ruleFalsy(m *evalModel, r *Report) {
 	if len(cmps) != 2 {
 		return
 	}
-	// the block reached when both comparisons are false (truthy) must be the one that continues with operand 2;
-	// blocks reached through a true edge continue with operand 3 or return nil
-	truthy := map[*ssa.BasicBlock]bool{}
-	for _, b := range m.EVAL.Blocks {
-		if !reg[b] {
-			continue
-		}
-		cnt := 0
-		for _, c := range cmps {
-			d := c.Block()
-			if iff := blockIf(d); iff != nil && iff.Cond == ssa.Value(c) {
-				falsyEdge := 0
-				if c.Op == token.NEQ {
-					falsyEdge = 1
-				}
-				if edgeDominates(d, 1-falsyEdge, b) {
-					cnt++
-				}
-			}
-		}
-		if cnt == 2 {
-			truthy[b] = true
-		}
-	}
-	// continuation values: operands of phis outside the region fed from region blocks, and returns inside the region
+	// Which exits of the region are taken for which kind of condition value is decided by evaluating the
+	// region's control flow under each of the three kinds: nil, false, anything else.  The two comparisons
+	// are the only inputs; boolean phis, negations and comparisons with constants are evaluated, any other
+	// branch is followed both ways.
 	n := 0
-	for _, b := range m.EVAL.Blocks {
-		for _, in := range b.Instrs {
-			phi, ok := in.(*ssa.Phi)
-			if !ok || !isMalType(phi.Type()) {
-				continue
+	kindsOfValue := []struct {
+		name   string
+		truthy bool
+		val    func(c *ssa.BinOp) bool
+	}{
+		{"nil", false, func(c *ssa.BinOp) bool { return cmpKind(c, cond) == "nil" }},
+		{"false", false, func(c *ssa.BinOp) bool { return cmpKind(c, cond) == "false" }},
+		{"neither nil nor false", true, func(c *ssa.BinOp) bool { return false }},
+	}
+	type exitKey struct {
+		pos  token.Pos
+		what string
+	}
+	seen := map[exitKey]bool{}
+	for _, kv := range kindsOfValue {
+		assign := map[ssa.Value]bool{}
+		for _, c := range cmps {
+			eq := kv.val(c) // does "cond == constant" hold for this kind of value
+			if c.Op == token.NEQ {
+				eq = !eq
 			}
-			for i, op := range phi.Edges {
-				pred := b.Preds[i]
-				if !reg[pred] || reg[b] {
-					continue
+			assign[c] = eq
+		}
+		for _, ex := range simulateRegion(calls[0].call.Block(), reg, assign) {
+			if ex.ret != nil {
+				res := ex.ret.Results
+				if len(res) == 2 && !isNilConst(resolveRet(res[1])) {
+					continue // error return
 				}
 				n++
-				key := m.e.keyOf(op).String()
-				d := describeVal(m.e, op, 0)
-				isOp2 := strings.HasSuffix(key, ".Val[2]") || d == "a2"
-				isOp3 := strings.HasSuffix(key, ".Val[3]")
-				if truthy[pred] {
-					r.check(isOp2, "C01.falsy", m.EVAL, "truthy continuation", instrPos(pred.Instrs[len(pred.Instrs)-1]), "operand 2 (the then-form)", "when the condition is neither nil nor false the loop continues with "+d+" instead of operand 2")
-				} else {
-					r.check(isOp3, "C01.falsy", m.EVAL, "falsy continuation", instrPos(pred.Instrs[len(pred.Instrs)-1]), "operand 3 (the else-form)", "when the condition is nil or false the loop continues with "+d+" instead of operand 3")
+				v0 := resolveRet(res[0])
+				r.check(!kv.truthy && isNilConst(v0), "C01.falsy", m.EVAL, "if without else, condition "+kv.name, ex.ret.Pos(), "returns nil on the falsy path only", "the if region returns a non-nil value or returns when the condition is "+kv.name)
+				continue
+			}
+			for _, in := range ex.succ.Instrs {
+				phi, ok := in.(*ssa.Phi)
+				if !ok || !isMalType(phi.Type()) {
+					continue
+				}
+				for i, op := range phi.Edges {
+					if ex.succ.Preds[i] != ex.pred {
+						continue
+					}
+					key := m.e.keyOf(op).String()
+					d := describeVal(m.e, op, 0)
+					isOp2 := strings.HasSuffix(key, ".Val[2]") || d == "a2"
+					isOp3 := strings.HasSuffix(key, ".Val[3]")
+					if !isOp2 && !isOp3 && phi != m.astPhi {
+						continue // some other loop-carried value
+					}
+					n++
+					pos := instrPos(ex.pred.Instrs[len(ex.pred.Instrs)-1])
+					if kv.truthy {
+						r.check(isOp2, "C01.falsy", m.EVAL, "continuation when the condition is "+kv.name, pos, "operand 2 (the then-form)", "when the condition is neither nil nor false the loop continues with "+d+" instead of operand 2")
+					} else {
+						r.check(isOp3, "C01.falsy", m.EVAL, "continuation when the condition is "+kv.name, pos, "operand 3 (the else-form)", "when the condition is "+kv.name+" the loop continues with "+d+" instead of operand 3")
+					}
 				}
 			}
+			_ = seen
 		}
 	}
-	for _, rt := range m.returns(m.EVAL) {
-		ret := rt[0].(*ssa.Return)
-		if !reg[ret.Block()] {
-			continue
-		}
-		v0, v1 := rt[1].(ssa.Value), rt[2]
-		if v1 != nil && !isNilConst(v1.(ssa.Value)) {
-			continue // error return
-		}
-		n++
-		r.check(isNilConst(v0) && !truthy[ret.Block()], "C01.falsy", m.EVAL, "if without else", ret.Pos(), "returns nil on the falsy path only", "the if region returns a non-nil value or returns on the truthy path")
-	}
-	r.floor("C01.falsy", "continuations of the if region", n, 3)
+	r.floor("C01.falsy", "continuations of the if region (over the three kinds of condition value)", n, 5)
 }
 
 func keysOf(m map[string]bool) []string {
@@ -951,6 +1031,27 @@ func ruleBody(m *evalModel, r *Report) {
 			r.check(ok && from == w[0] && to == w[1], "C01.body", ec.fn, construct, ec.call.Pos(), fmt.Sprintf("(%d,%d)", from, to), fmt.Sprintf("(%d,%d) does not match the form's grammar", from, to))
 			// the list passed is the form itself
 			r.check(m.e.keyOf(ec.ast).String() == m.formKey() || strings.HasPrefix(m.e.keyOf(ec.ast).String(), m.formKey()+".("), "C01.body", ec.fn, construct+": list passed", ec.call.Pos(), "the form itself", "the body helper does not receive the form being evaluated")
+		}
+	}
+	// let: binding i is (symbol at index i, value of the form at index i+1), bound in the same iteration
+	if reg, ok := m.regions["let"]; ok {
+		for b := range reg {
+			for _, in := range b.Instrs {
+				ci, ok := in.(ssa.CallInstruction)
+				if !ok || !ci.Common().IsInvoke() || ci.Common().Method.Name() != "Set" || len(ci.Common().Args) != 2 {
+					continue
+				}
+				symIdx, valIdx := "", ""
+				if t, off, ok := indexOfElem(m.e, ci.Common().Args[0]); ok {
+					symIdx = fmt.Sprintf("%s%+d", t, off)
+				}
+				if pcs := m.producingCalls(ci.Common().Args[1], map[ssa.Value]bool{}); len(pcs) == 1 && pcs[0].Call.StaticCallee() == m.EVAL && pcs[0].Block().Dominates(b) {
+					if t, off, ok := indexOfElem(m.e, pcs[0].Call.Args[1]); ok {
+						valIdx = fmt.Sprintf("%s%+d", t, off-1)
+					}
+				}
+				r.check(symIdx != "" && symIdx == valIdx, "C01.body", m.EVAL, "let binding pair", in.Pos(), "symbol at index i bound to the value of the form at index i+1", "let binds a symbol to the value of a form that is not its partner (symbol index "+symIdx+", value index-1 "+valIdx+")")
+			}
 		}
 	}
 	r.floor("C01.body", "calls of the body helper", n, 5)
@@ -1270,6 +1371,253 @@ func symbolLiteral(v ssa.Value) string {
 				}
 			}
 		}
+	}
+	return ""
+}
+
+
+// indexOfElem: for a value that is (an assertion on) the element seq[idx] loaded from a slice, the linear form of idx.
+func indexOfElem(e *Engine, v ssa.Value) (Term, int64, bool) {
+	for depth := 0; depth < 4; depth++ {
+		switch x := v.(type) {
+		case *ssa.TypeAssert:
+			v = x.X
+			continue
+		case *ssa.Extract:
+			if ta, ok := x.Tuple.(*ssa.TypeAssert); ok {
+				v = ta.X
+				continue
+			}
+		case *ssa.UnOp:
+			if ia, ok := x.X.(*ssa.IndexAddr); ok {
+				return e.linOf(ia.Index)
+			}
+		}
+		break
+	}
+	return Term{}, 0, false
+}
+
+
+// cmpKind: the constant a comparison of v is made with: "nil", "false" or "other".
+func cmpKind(c *ssa.BinOp, v ssa.Value) string {
+	other := c.Y
+	if c.Y == v {
+		other = c.X
+	}
+	if c.Op != token.EQL && c.Op != token.NEQ {
+		return "other"
+	}
+	if isNilConst(other) {
+		return "nil"
+	}
+	if mi, ok := other.(*ssa.MakeInterface); ok {
+		if k, ok := mi.X.(*ssa.Const); ok && k.Value != nil && k.Value.Kind() == constant.Bool && !constant.BoolVal(k.Value) {
+			return "false"
+		}
+	}
+	return "other"
+}
+
+type regionExit struct {
+	pred, succ *ssa.BasicBlock // edge leaving the region
+	ret        *ssa.Return     // or a return inside it
+}
+
+// simulateRegion follows the control flow from block start while it stays inside reg, with the boolean
+// values in assign given.  Conditions that are boolean combinations of the given values (phis of them and
+// of constants, negation, comparison with a constant) are evaluated; every other branch is followed both
+// ways.  It returns the exits that can be taken.
+func simulateRegion(start *ssa.BasicBlock, reg map[*ssa.BasicBlock]bool, assign map[ssa.Value]bool) []regionExit {
+	var exits []regionExit
+	seenExit := map[regionExit]bool{}
+	type state struct {
+		b, prev *ssa.BasicBlock
+	}
+	var walk func(b, prev *ssa.BasicBlock, env map[ssa.Value]bool, depth int)
+	eval := func(v ssa.Value, env map[ssa.Value]bool) (bool, bool) {
+		if x, ok := env[v]; ok {
+			return x, true
+		}
+		if c, ok := v.(*ssa.Const); ok && c.Value != nil && c.Value.Kind() == constant.Bool {
+			return constant.BoolVal(c.Value), true
+		}
+		return false, false
+	}
+	walk = func(b, prev *ssa.BasicBlock, env0 map[ssa.Value]bool, depth int) {
+		if depth > 64 {
+			return
+		}
+		env := map[ssa.Value]bool{}
+		for k, v := range env0 {
+			env[k] = v
+		}
+		for _, in := range b.Instrs {
+			switch x := in.(type) {
+			case *ssa.Phi:
+				if prev == nil {
+					continue
+				}
+				for i, p := range b.Preds {
+					if p == prev {
+						if val, ok := eval(x.Edges[i], env0); ok {
+							env[x] = val
+						} else {
+							delete(env, x)
+						}
+					}
+				}
+			case *ssa.UnOp:
+				if x.Op == token.NOT {
+					if val, ok := eval(x.X, env); ok {
+						env[x] = !val
+					}
+				}
+			case *ssa.BinOp:
+				if _, given := assign[x]; given {
+					continue
+				}
+				if x.Op == token.EQL || x.Op == token.NEQ {
+					l, lok := eval(x.X, env)
+					rr, rok := eval(x.Y, env)
+					if lok && rok && isBoolType(x.X.Type()) {
+						env[x] = (l == rr) == (x.Op == token.EQL)
+					}
+				}
+			case *ssa.Return:
+				e := regionExit{ret: x}
+				if !seenExit[e] {
+					seenExit[e] = true
+					exits = append(exits, e)
+				}
+				return
+			}
+		}
+		next := func(s *ssa.BasicBlock) {
+			if !reg[s] {
+				e := regionExit{pred: b, succ: s}
+				if !seenExit[e] {
+					seenExit[e] = true
+					exits = append(exits, e)
+				}
+				return
+			}
+			walk(s, b, env, depth+1)
+		}
+		if iff := blockIf(b); iff != nil {
+			if val, ok := eval(iff.Cond, env); ok {
+				if val {
+					next(b.Succs[0])
+				} else {
+					next(b.Succs[1])
+				}
+				return
+			}
+		}
+		for _, s := range b.Succs {
+			next(s)
+		}
+	}
+	env := map[ssa.Value]bool{}
+	for k, v := range assign {
+		env[k] = v
+	}
+	walk(start, nil, env, 0)
+	return exits
+}
+
+func isBoolType(t types.Type) bool {
+	b, ok := t.Underlying().(*types.Basic)
+	return ok && b.Info()&types.IsBoolean != 0
+}
+
+
+// childKind: the kind of a scope created as a child of parent.
+func (m *evalModel) childKind(parent ssa.Value, call *ssa.Call) (scopeKind, *ssa.Call) {
+	if m.isCurrentScope(parent) {
+		return scFreshChild, call
+	}
+	if k, _ := m.scopeKindOf(parent); k == scCurrent {
+		return scFreshChild, call
+	}
+	if f, ok := parent.(*ssa.Field); ok && fieldName(f.X.Type(), f.Field) == "Env" {
+		return scClosureChild, call
+	}
+	if ld, ok := parent.(*ssa.UnOp); ok {
+		if fa, ok := ld.X.(*ssa.FieldAddr); ok && fieldName(fa.X.Type(), fa.Field) == "Env" {
+			return scClosureChild, call
+		}
+	}
+	return scUnknown, call
+}
+
+// returnsChildOfParam: every scope the helper returns (first result, when no error is returned) is a child
+// scope created inside it from its parameter number idx.
+func (m *evalModel) returnsChildOfParam(h *ssa.Function) (int, bool) {
+	if _, ok := m.helperSites[h]; !ok {
+		return 0, false
+	}
+	res := h.Signature.Results()
+	if res.Len() == 0 || !strings.HasSuffix(res.At(0).Type().String(), "types.EnvType") {
+		return 0, false
+	}
+	idx, n := -1, 0
+	for _, rt := range m.returns(h) {
+		v0 := rt[1].(ssa.Value)
+		if isNilConst(v0) {
+			continue
+		}
+		var call *ssa.Call
+		switch x := v0.(type) {
+		case *ssa.Call:
+			call = x
+		case *ssa.Extract:
+			call, _ = x.Tuple.(*ssa.Call)
+		}
+		if call == nil {
+			return 0, false
+		}
+		c := call.Call.StaticCallee()
+		if c != m.newSub && c != m.newSubBinds {
+			return 0, false
+		}
+		p, ok := call.Call.Args[0].(*ssa.Parameter)
+		if !ok {
+			return 0, false
+		}
+		k := -1
+		for i, q := range h.Params {
+			if q == p {
+				k = i
+			}
+		}
+		if k < 0 || (idx >= 0 && idx != k) {
+			return 0, false
+		}
+		idx = k
+		n++
+	}
+	return idx, n > 0 && idx >= 0
+}
+
+
+// doMode: "all" when the body helper is called with to == 0 (every form evaluated, value returned),
+// "tail" when to == -1 (last form returned unevaluated), "" otherwise.
+func doMode(call *ssa.Call) string {
+	var ints []int64
+	for _, a := range call.Call.Args {
+		if k, ok := a.(*ssa.Const); ok && k.Value != nil && isIntType(k.Type()) {
+			ints = append(ints, k.Int64())
+		}
+	}
+	if len(ints) != 2 {
+		return ""
+	}
+	switch ints[1] {
+	case 0:
+		return "all"
+	case -1:
+		return "tail"
 	}
 	return ""
 }
